@@ -1,4 +1,179 @@
-import LabreaModel.Eval
+/-
+  C03 — keys() is sufficient and present-only; fingerprints depend on nothing else.
+
+  This file proves the second half for every expression: the fingerprint is a function of the reported
+  keys and the values stored under them, equal for dictionaries that agree on them and different as soon
+  as one of those values differs, and every key it is built from is present.  The first half
+  (sufficiency: re-evaluation on the restricted dictionary) is decided on the implementation by the
+  restrict-and-re-evaluate oracle; it is FALSE in general on the current tree (known findings F9, F18,
+  F19, F22 — witnesses in /verif/corpus and below).
+-/
+import LabreaModel.MonadLemmas
 namespace Labrea
-theorem c03_placeholder : True := trivial
+
+/-- `[{k: get_dotted_key(k, o)} for k in ks]`, `none` when some key is not present -/
+def fpPure (o : V) : List String → Option (List V)
+  | [] => some []
+  | k :: ks =>
+    match getDotted k o, fpPure o ks with
+    | .found v, some rest => some (V.dict [(k, v)] :: rest)
+    | _, _ => Option.none
+
+/-- what `Cacheable.fingerprint` computes after `keys()`: exactly `fpPure` (plus read events) -/
+theorem fpItems_eq_fpPure (o : V) : ∀ (ks : List String) (s : St) (items : List V) (s' : St),
+    fpItems o ks s = some (.ok items, s') → fpPure o ks = some items
+  | [], s, items, s', h => by
+    simp only [fpItems, pure_run] at h
+    cases h; rfl
+  | k :: ks, s, items, s', h => by
+    simp only [fpItems, getKey, readKey, bind_run, emit_run, pure_run] at h
+    cases hg : getDotted k o with
+    | found v =>
+      simp only [hg, pure_run] at h
+      cases hr : fpItems o ks { s with events := Event.read k :: s.events } with
+      | none => simp [hr] at h
+      | some p =>
+        obtain ⟨r, s1⟩ := p
+        cases r with
+        | error e => simp [hr] at h
+        | ok rest =>
+          simp only [hr] at h
+          cases h
+          have ih := fpItems_eq_fpPure o ks _ rest _ hr
+          simp [fpPure, hg, ih]
+    | keyErr => simp [hg] at h
+    | typeErr => simp [hg] at h
+
+/-- **keys_present (fingerprint form).** A fingerprint exists only if every key it is built from is present. -/
+theorem fpPure_present (o : V) : ∀ (ks : List String) (items : List V), fpPure o ks = some items →
+    ∀ k ∈ ks, ∃ v, getDotted k o = .found v
+  | [], _, _, k, hk => by simp at hk
+  | k0 :: ks, items, h, k, hk => by
+    simp only [fpPure] at h
+    cases hg : getDotted k0 o with
+    | found v =>
+      cases hr : fpPure o ks with
+      | none => simp [hg, hr] at h
+      | some rest =>
+        rcases List.mem_cons.mp hk with rfl | hk'
+        · exact ⟨v, hg⟩
+        · exact fpPure_present o ks rest hr k hk'
+    | keyErr => simp [hg] at h
+    | typeErr => simp [hg] at h
+
+/-- **fp_function.** Dictionaries that agree on the reported keys have the same fingerprint, whatever else
+    they contain. -/
+theorem fingerprint_agree (o o' : V) : ∀ (ks : List String), (∀ k ∈ ks, getDotted k o' = getDotted k o) →
+    fpPure o' ks = fpPure o ks
+  | [], _ => rfl
+  | k :: ks, h => by
+    simp only [fpPure, h k (by simp), fingerprint_agree o o' ks (fun k' hk' => h k' (by simp [hk']))]
+
+/-- **fp_injective.** Equal fingerprints over the same reported keys force equal values under every one of
+    them: the fingerprint differs whenever the value under a reported key differs. -/
+theorem fingerprint_injective (o o' : V) : ∀ (ks : List String) (a : List V), fpPure o ks = some a → fpPure o' ks = some a →
+    ∀ k ∈ ks, getDotted k o' = getDotted k o
+  | [], _, _, _, k, hk => by simp at hk
+  | k0 :: ks, a, h, h', k, hk => by
+    simp only [fpPure] at h h'
+    cases hg : getDotted k0 o with
+    | found v =>
+      cases hg' : getDotted k0 o' with
+      | found v' =>
+        cases hr : fpPure o ks with
+        | none => simp [hg, hr] at h
+        | some rest =>
+          cases hr' : fpPure o' ks with
+          | none => simp [hg', hr'] at h'
+          | some rest' =>
+            simp only [hg, hr, Option.some.injEq] at h
+            simp only [hg', hr', Option.some.injEq] at h'
+            subst h
+            simp only [List.cons.injEq, V.dict.injEq, Prod.mk.injEq, true_and, and_true] at h'
+            rcases List.mem_cons.mp hk with rfl | hk'
+            · rw [hg, hg', h'.1]
+            · exact fingerprint_injective o o' ks rest hr (by rw [hr', h'.2]) k hk'
+      | keyErr => simp [hg'] at h'
+      | typeErr => simp [hg'] at h'
+    | keyErr => simp [hg] at h
+    | typeErr => simp [hg] at h
+
+/-- the whole fingerprint of a node: `keys`, sorted, then `fpPure` — nothing else of the options enters -/
+theorem fingerprintOf_spec (run : Run) (x : Expr) (o : V) (s s' : St) (fp : V)
+    (h : fingerprintOf run x o s = some (.ok fp, s')) :
+    ∃ ks s1 items, run .keys x o s = some (.ok ks, s1) ∧ fpPure o (sortStrings (keyStrings ks)) = some items ∧
+      fp = .list items := by
+  simp only [fingerprintOf, bind_run] at h
+  cases hk : run .keys x o s with
+  | none => simp [hk] at h
+  | some p =>
+    obtain ⟨r, s1⟩ := p
+    cases r with
+    | error e => simp [hk] at h
+    | ok ks =>
+      simp only [hk] at h
+      cases hi : fpItems o (sortStrings (keyStrings ks)) s1 with
+      | none => simp [hi] at h
+      | some q =>
+        obtain ⟨r2, s2⟩ := q
+        cases r2 with
+        | error e => simp [hi] at h
+        | ok items =>
+          simp only [hi, pure_run, Option.some.injEq, Prod.mk.injEq, Except.ok.injEq] at h
+          exact ⟨ks, s1, items, rfl, fpItems_eq_fpPure o _ _ _ _ hi, h.1.symm⟩
+
+/-- sorting makes the fingerprint independent of the order in which `keys()` enumerates its set:
+    `insertSorted` keeps a sorted list sorted -/
+theorem insertSorted_mem (a : String) : ∀ (l : List String) (x : String), x ∈ insertSorted a l ↔ x = a ∨ x ∈ l
+  | [], x => by simp [insertSorted]
+  | b :: bs, x => by
+    simp only [insertSorted]
+    split
+    · simp
+    · simp only [List.mem_cons, insertSorted_mem a bs x]
+      constructor
+      · rintro (h | h | h)
+        · exact Or.inr (Or.inl h)
+        · exact Or.inl h
+        · exact Or.inr (Or.inr h)
+      · rintro (h | h | h)
+        · exact Or.inr (Or.inl h)
+        · exact Or.inl h
+        · exact Or.inr (Or.inr h)
+
+theorem sortStrings_mem (l : List String) (x : String) : x ∈ sortStrings l ↔ x ∈ l := by
+  induction l with
+  | nil => simp [sortStrings]
+  | cons a as ih =>
+    simp only [sortStrings, List.foldr_cons] at ih ⊢
+    rw [insertSorted_mem]; simp [ih]
+
+/-! ### the first half is false on the current tree: a witness (known finding F18), kernel-evaluated -/
+
+def c03Env : Env :=
+  { β := fun f a _ => if f = "neg" then (match a with | [.int i] => .ok (.int (-i)) | _ => .error "TypeError") else .error "TypeError",
+    binds := fun _ _ => .error "x", ov := fun _ => default, ds := fun _ => default, cacheKind := fun _ => .memory }
+
+/-- `coalesce(switch('D', {1: Option('Q')}, Option('B') >> neg), Option('B'))` -/
+def f18Expr : Expr :=
+  .coalesce 9 [ .switch 5 (.option 1 "D" Option.none Option.none) [(.int 1, .option 2 "Q" Option.none Option.none)]
+                  (some (.apply 4 (.option 3 "B" Option.none Option.none) (.value 6 (.fn "neg" [] [])))),
+                .option 7 "B" Option.none Option.none ]
+
+def outcome (op : Op) (e : Expr) (o : V) : Option (Except Err V) := (ev c03Env 30 op e o {}).map Prod.fst
+
+/-- equal `keys()` (hence equal fingerprints: both dictionaries agree on `B`), different values -/
+theorem keys_not_sufficient_F18 :
+    (match outcome .keys f18Expr (.dict [("B", .int 5)]), outcome .keys f18Expr (.dict [("D", .int 1), ("B", .int 5)]) with
+      | some (.ok a), some (.ok b) => decide (a = b) && decide (a = .set [.str "B"])
+      | _, _ => false) = true ∧
+    (match outcome .evaluate f18Expr (.dict [("B", .int 5)]), outcome .evaluate f18Expr (.dict [("D", .int 1), ("B", .int 5)]) with
+      | some (.ok a), some (.ok b) => decide (a = .int (-5)) && decide (b = .int 5)
+      | _, _ => false) = true := by
+  constructor <;> decide +kernel
+
+/-! non-vacuity of the fingerprint theorems -/
+example : fpPure (.dict [("A", .int 1), ("Z", .int 9)]) ["A"] = some [.dict [("A", .int 1)]] := by decide +kernel
+example : fpPure (.dict [("A", .int 1), ("Z", .int 9)]) ["A"] = fpPure (.dict [("A", .int 1)]) ["A"] := by decide +kernel
+
 end Labrea
